@@ -316,38 +316,103 @@ def run_c12(facts, out):
         out.add('SS-C12', conv, 'flush-before-move-out', '%s:%d' % (cb.file, cb.line), ok,
                 '' if ok else 'the last pending group is not flushed before the control points are moved out',
                 ordinal=False)
-    # add_control_point: flush on time change, push_front if timing_change else push_back, remember time
+    # add_control_point: flush on time change; timing-change lines keep the first pending point,
+    # inherited lines overwrite; the keep-first / overwrite logic may live in helpers or inline
     ac = TPD + 'TimingPointsState::add_control_point'
     hfn = facts.hir.get(ac)
     out.anchor('SS-C12', 'add_control_point', hfn is not None)
     if hfn is not None:
         ctx = Ctx(facts, H.binding_inits(hfn))
+        bb = facts.body(ac)
         p1 = find(ctx, hfn['body'], IF(BIN('Ge', M('abs', BIN('Sub', L('time'), F(L('self'), 'pending_control_points_time'))), ANY()),
                                         CONTAINS(M('flush_pending_points', L('self')))))
-        p2 = find(ctx, hfn['body'], IF(L('timing_change'), CONTAINS(M('push_front', L('point'), L('self'))),
-                                        CONTAINS(M('push_back', L('point'), L('self')))))
-        ok = bool(p1) and bool(p2)
-        bb = facts.body(ac)
-        out.add('SS-C12', ac, 'group-logic', '%s:%d' % (bb.file, bb.line), ok,
-                '' if ok else ('same-time grouping changed: expected flush on time change and push_front for timing-change '
-                               'lines / push_back for inherited lines'), ordinal=False)
-    for nm, pat, msg in (('push_front', IF(M('is_none', L('pending')), ANY()), 'push_front must keep the first (only fill when empty)'),):
-        fn = TPD + 'Pending::push_front'
-        hfn = facts.hir.get(fn)
-        out.anchor('SS-C12', 'Pending::push_front', hfn is not None)
-        if hfn is not None:
-            ctx = Ctx(facts, H.binding_inits(hfn))
-            ok = bool(find(ctx, hfn['body'], pat))
-            bb = facts.body(fn)
-            out.add('SS-C12', fn, 'keeps-first', '%s:%d' % (bb.file, bb.line), ok, '' if ok else msg, ordinal=False)
-    fn = TPD + 'Pending::push_back'
-    hfn = facts.hir.get(fn)
-    if hfn is not None:
-        ctx = Ctx(facts, H.binding_inits(hfn))
-        ok = not find(ctx, hfn['body'], M('is_none', ANY())) and not find(ctx, hfn['body'], M('is_some', ANY()))
-        bb = facts.body(fn)
-        out.add('SS-C12', fn, 'overwrites', '%s:%d' % (bb.file, bb.line), ok,
-                '' if ok else 'push_back must overwrite unconditionally (last inherited line wins)', ordinal=False)
+        out.add('SS-C12', ac, 'flush-on-time-change', '%s:%d' % (bb.file, bb.line), bool(p1),
+                '' if p1 else 'the pending group is not flushed when the time changes', ordinal=False)
+        ifs = [n for (n, _a) in find(ctx, hfn['body'], IF(L('timing_change'), ANY(), ANY()))]
+        ok = False
+        why = 'no `if timing_change { keep first } else { overwrite }` decision found'
+        for n in ifs:
+            n = strip(n)
+            keep = _keeps_first(facts, ctx, n['t'])
+            over = _overwrites(facts, ctx, n.get('e'))
+            if keep and over:
+                ok = True
+            else:
+                why = ('same-time grouping changed: a timing-change line must keep the first pending point (%s), an '
+                       'inherited line must overwrite it (%s)') % ('ok' if keep else 'not established',
+                                                                   'ok' if over else 'not established')
+        out.add('SS-C12', ac, 'group-logic', '%s:%d' % (bb.file, bb.line), ok, '' if ok else why, ordinal=False)
+        rem = find(ctx, hfn['body'], ANY())
+        sets_time = False
+
+        def vt(n, anc):
+            nonlocal sets_time
+            if n.get('k') == 'assign':
+                fc = H.field_chain(n['l'])
+                if fc and fc[1] == ['pending_control_points_time'] and L('time').m(ctx, n['r']):
+                    sets_time = True
+        H.walk(hfn['body'], vt)
+        out.add('SS-C12', ac, 'remembers-group-time', '%s:%d' % (bb.file, bb.line), sets_time,
+                '' if sets_time else 'the time of the pending group is not remembered', ordinal=False)
+
+
+def _assigns_some(ctx, e):
+    """`*x = Some(point)`-like assignment inside e: returns list of (assign node, ancestors)"""
+    res = []
+
+    def v(n, anc):
+        if n.get('k') == 'assign':
+            r = strip(n['r'])
+            if isinstance(r, dict) and r.get('k') == 'call' and r['f'].get('name') == 'Some':
+                res.append((n, anc))
+    H.walk(e, v)
+    return res
+
+
+def _helper_body(facts, e, names):
+    """if e contains a method/fn call named in `names` that resolves to a local fn, its HIR"""
+    found = []
+
+    def v(n, anc):
+        if n.get('k') == 'mcall' and n.get('name') in names:
+            found.append(n.get('def'))
+        if n.get('k') == 'call' and n['f'].get('k') == 'path' and n['f'].get('name') in names:
+            found.append(n['f'].get('def'))
+    H.walk(e, v)
+    for d in found:
+        h = facts.hir.get(d)
+        if h is not None:
+            return h
+    return None
+
+
+def _keeps_first(facts, ctx, e):
+    if e is None:
+        return False
+    # inline: an assignment of Some(..) guarded by `<pending>.is_none()`
+    for n, anc in _assigns_some(ctx, e):
+        if any(a.get('k') == 'if' and M('is_none', ANY()).m(ctx, a['c']) for a in anc):
+            return True
+        return False
+    h = _helper_body(facts, e, ('push_front',))
+    if h is not None:
+        c2 = Ctx(facts, H.binding_inits(h))
+        for n, anc in _assigns_some(c2, h['body']):
+            return any(a.get('k') == 'if' and M('is_none', ANY()).m(c2, a['c']) for a in anc)
+    return False
+
+
+def _overwrites(facts, ctx, e):
+    if e is None:
+        return False
+    for n, anc in _assigns_some(ctx, e):
+        return not any(a.get('k') == 'if' for a in anc)
+    h = _helper_body(facts, e, ('push_back',))
+    if h is not None:
+        c2 = Ctx(facts, H.binding_inits(h))
+        for n, anc in _assigns_some(c2, h['body']):
+            return not any(a.get('k') == 'if' for a in anc)
+    return False
 
 
 # ------------------------------------------------------------------------------ C14 structural
@@ -609,22 +674,52 @@ def run_c20(facts, out):
         out.add('SS-C20', nxt, 'event-kind-per-state', '%s:%d' % (b.file, b.line), okk,
                 '' if okk else 'events emitted per state are %s, expected %s' % (
                     {k: sorted(v) for k, v in kinds.items()}, {k: sorted(v) for k, v in expk.items()}), ordinal=False)
-    # control dependence in generate_ticks
-    gt = EV + 'generate_ticks'
-    g = facts.body(gt)
-    out.anchor('SS-C20', 'generate_ticks', g is not None)
+    # control dependence in the span generator: found by what it does (it pushes Tick events),
+    # not by its private name
+    def kind_of_aggr(body, rv):
+        if rv['k'] == 'aggr' and rv.get('adt') == EV + 'SliderEvent':
+            o = rv['ops'][rv['fields'].index('kind')]
+            l = op_local(o)
+            vd = value_def(body, l) if l is not None else None
+            if vd and vd[0] == 'assign' and vd[1]['rv']['k'] == 'aggr':
+                return vd[1]['rv'].get('variant')
+        return None
+
+    def kind_of_value(body, l, depth=0):
+        vd = value_def(body, l) if l is not None else None
+        if not vd:
+            return None
+        if vd[0] == 'assign':
+            return kind_of_aggr(body, vd[1]['rv'])
+        c = callee_of(vd[1])
+        cb = facts.bodies.get(c['path']) if c else None
+        if cb is not None and depth < 2:
+            for bi, si, kd, st in cb.defs.get(0, []):
+                if kd == 'assign':
+                    k2 = kind_of_aggr(cb, st['rv'])
+                    if k2:
+                        return k2
+        return None
+
+    gens = []
+    for p2, b2 in sorted(facts.bodies.items()):
+        if not p2.startswith(EV):
+            continue
+        for bb, t in b2.calls():
+            c = callee_of(t)
+            if c and c['name'] == 'push' and len(t['args']) == 2 and kind_of_value(b2, op_local(t['args'][1])) == 'Tick':
+                gens.append(b2)
+                break
+    out.anchor('SS-C20', 'the function that generates the ticks of a span', len(gens) == 1, str([g_.path for g_ in gens]))
+    g = gens[0] if len(gens) == 1 else None
+    gt = g.path if g is not None else EV + 'generate_ticks'
     if g is not None:
         pushes = []
         for bb, t in g.calls():
             c = callee_of(t)
             if c and c['name'] == 'push' and len(t['args']) == 2:
-                vl = op_local(t['args'][1])
-                vd = value_def(g, vl) if vl is not None else None
-                kind = None
-                if vd and vd[0] == 'call' and callee_of(vd[1]) and callee_of(vd[1])['name'] == 'new_repeat_point':
-                    kind = 'repeat'
-                elif vd and vd[0] == 'assign' and vd[1]['rv']['k'] == 'aggr' and vd[1]['rv'].get('adt') == EV + 'SliderEvent':
-                    kind = 'tick'
+                k2 = kind_of_value(g, op_local(t['args'][1]))
+                kind = {'Repeat': 'repeat', 'Tick': 'tick'}.get(k2)
                 pushes.append((bb, t, kind))
         nrep = sum(1 for p in pushes if p[2] == 'repeat')
         ntick = sum(1 for p in pushes if p[2] == 'tick')
